@@ -196,6 +196,71 @@ fn run_consec_tuple(ops: &[&str]) -> Vec<U> {
     out
 }
 
+/// Deterministic probes of three limits of the crate that the property texts, read literally, do not allow for
+/// (known findings D15, D16, D17).  Each returns a list of observations the Python side interprets.
+fn run_probe(kind: &str) -> Vec<U> {
+    use flatcontainer::impls::codec::{CodecRegion, DictionaryCodec};
+    use flatcontainer::OwnedRegion;
+    match kind {
+        // D15: every byte value occurs as a first byte in the source, so no tag is free for the dominating string
+        "no_free_tag" => {
+            let mut a = <CodecRegion<DictionaryCodec>>::default();
+            for b in 0..=255u8 {
+                a.push(&[b, 1][..]);
+            }
+            for _ in 0..10_000 {
+                a.push(&b"hello"[..]);
+            }
+            let mut m = <CodecRegion<DictionaryCodec>>::merge_regions(std::iter::once(&a));
+            let i = m.push(&b"hello"[..]);
+            let ok = m.index(i) == b"hello";
+            vec![U::nat(i.1 - i.0), U::bool(ok)]
+        }
+        // D16: a dictionary codec over a dictionary-coded backing region
+        "nested_codec" => {
+            type N = CodecRegion<DictionaryCodec, CodecRegion<DictionaryCodec>>;
+            let mut a = N::default();
+            for _ in 0..1000 {
+                a.push(&b"abc"[..]);
+            }
+            let mut m = N::merge_regions(std::iter::once(&a));
+            match caught(|| m.push(&b"abc"[..])) {
+                Some(i) => vec![U::nat(i.1 - i.0), U::bool(m.index(i) == b"abc")],
+                None => vec![U::L(vec![U::N(98)])],
+            }
+        }
+        // D17: pre-sizing sums lengths unchecked; two sources of usize::MAX/2+1 zero-sized elements
+        "zst_sum" => {
+            let n = usize::MAX / 2 + 1;
+            let mut a = <OwnedRegion<()>>::default();
+            let big: Vec<()> = vec![(); n];
+            let i = a.push(&big[..]);
+            let len_ok = a.index(i).len() == n;
+            let merged = caught(|| <OwnedRegion<()>>::merge_regions([&a, &a].into_iter()));
+            let reserved = caught(|| {
+                let mut t = <OwnedRegion<()>>::default();
+                t.reserve_regions([&a, &a].into_iter());
+                t.push(&[(), ()][..])
+            });
+            vec![
+                U::bool(len_ok),
+                match merged {
+                    Some(mut m) => {
+                        let j = m.push(&[(), (), ()][..]);
+                        U::nat(m.index(j).len())
+                    }
+                    None => U::L(vec![U::N(98)]),
+                },
+                match reserved {
+                    Some(j) => U::nat(j.1 - j.0),
+                    None => U::L(vec![U::N(98)]),
+                },
+            ]
+        }
+        _ => vec![],
+    }
+}
+
 pub fn run_span(kind: &str, ops: &[&str]) -> Option<Vec<U>> {
     Some(match kind {
         "iopt" => run_consec::<IndexOptimized>(ops),
@@ -204,6 +269,7 @@ pub fn run_span(kind: &str, ops: &[&str]) -> Option<Vec<U>> {
         "fs_iopt" => run_stack::<IndexOptimized>(ops),
         "fs_ilist" => run_stack::<IndexList<Vec<u32>, Vec<u64>>>(ops),
         "con_tup" => run_consec_tuple(ops),
+        "no_free_tag" | "nested_codec" | "zst_sum" => run_probe(kind),
         _ => return None,
     })
 }
